@@ -129,7 +129,10 @@ def gen_case(rng, ctx, kinds: List[str]) -> Dict:
     kind = rng.choice(kinds)
     n = rng.randint(3, 160 if ctx.thorough else 70)
     late = rng.choice([0, 0, 0, 1, 2, 7]) if kind in X.HAS_INPUT else 0
-    spec = X.gen_spec(rng, kind, ctx.thorough, inputs=("src",) if late else ("close", "close", "high", "src"))
+    inputs = ("src",) if late else ("close", "close", "high", "src")
+    if not late and kind in ("SMA", "EMA", "RMA", "WMA", "STDEV"):
+        inputs = inputs + ("volume", "zsrc")       # series that contain exact zeros
+    spec = X.gen_spec(rng, kind, ctx.thorough, inputs=inputs)
     spec["round_value"] = rng.choice([4, 4, 8])
     # helper series are stored with 4 decimals whatever the scale of the prices: keep the
     # prices large enough for that rounding to be small against the quantities compared
@@ -138,6 +141,11 @@ def gen_case(rng, ctx, kinds: List[str]) -> Dict:
     if rng.random() < 0.3:      # repeated volumes while prices move
         for r in rows:
             r["volume"] = rng.choice([100, 100, 250])
+    elif spec["kw"].get("input_value") == "volume":
+        for r in rows:
+            r["volume"] = rng.choice([0, 0, 120, 95, 130, 7])
+    for r in rows:              # an input series around zero with exact zeros in it
+        r["inds"]["zsrc"] = rng.choice([0.0, 0.0, 0, 1.5, -2.25, 3.0, 0.5])
     return {"spec": spec, "cfg": {}, "rows": rows, "late": late, "meta": {"kind": kind, "n": n, "late": late}}
 
 
